@@ -130,8 +130,13 @@ def c_mpc_int(rng, fn):
     b = gen.norm(rng.randrange(2), gen.mant(rng, rng.randint(1, 40), prec), rng.randint(-20, 20))
     if k == 0: b = gen.FZERO
     if k == 1: a = gen.FZERO
+    if rng.random() < 0.12:      # purely real / imaginary bases with special values
+        sp = rng.choice([gen.FINF, gen.FNINF, gen.FNAN])
+        a, b = (sp, gen.FZERO) if rng.random() < 0.5 else (gen.FZERO, sp)
     z = (a, b)
     n = rng.choice([-7, -3, -2, -1, 0, 1, 2, 3, 4, 5, 8, 13, 16, 31, 50, 100])
+    if is_special(a) or is_special(b):
+        return Case(fn, flat(z) + [n, prec, r2i(rnd)], lambda: call_impl(C.mpc_pow_int, z, n, prec, rnd), ("cspecial",), prec, rnd, desc=(z, n))
     if a[1] and b[1]:
         de = abs(a[2] - b[2])
         size = abs(n) * (de + max(a[3], b[3]))
@@ -393,6 +398,9 @@ def spec_check(case, out):
                 pass
             elif not value_eq_round(t, case.exact[1][i], case.prec, case.rnd):
                 bad.append(("ROUND", "component %d is not the correctly rounded exact value" % i))
+    elif kind == "cspecial":
+        for i in (0, 1):
+            if not canonical(tup4(p, i)): bad.append(("C01", "non-canonical component (special value)"))
     elif kind == "cmod":
         re, im = tup4(p, 0), tup4(p, 1)
         if is_special(re) or is_special(im):
